@@ -282,6 +282,10 @@ func checkC03(h *History, sc *ScanCtx, g *GroupCtx, r *Report) {
 	}
 	U := len(g.View.Untainted)
 	adds := len(g.TaintAdds)
+	if g.Cfg.AutoDiscover && g.Cache != nil && g.Cache.Min == g.Cache.Max {
+		// the cloud group is pinned (minimum = maximum) and the group's bounds are discovered from it every scan
+		r.Covered(P, fmt.Sprintf("pinned-cloud-group:untainted-vs-min%s:stage=%v", bucket(int64(U)-g.Cache.Min), g.Plan.Stage))
+	}
 	for _, e := range g.Events {
 		if e.API == sim.K8sUpdate && e.Injected && e.Applied {
 			// a lost reply: the taint landed but escalator was told it failed
@@ -789,6 +793,12 @@ func checkC08(h *History, sc *ScanCtx, g *GroupCtx, r *Report) {
 			break
 		}
 	}
+	for _, n := range g.View.Untainted {
+		if len(n.Status.Conditions) == 1 && n.Status.Conditions[0].Type == v1.NodeReady && n.Status.Conditions[0].Status != v1.ConditionTrue {
+			sig += ":not-ready-node-among-candidates"
+			break
+		}
+	}
 	r.Covered(P, sig)
 	r.Sample(P, fmt.Sprintf("case %s scan %d: tainted=%v of %d untainted (excused %v)", h.Case, sc.Rec.No, g.TaintAdds, len(g.View.Untainted), oracle.SortedNames(excused)))
 	if !ok {
@@ -896,6 +906,9 @@ func checkC10(h *History, sc *ScanCtx, g *GroupCtx, r *Report) {
 			}
 			if g.View.Empty(n.Name) {
 				st += ":empty"
+			}
+			if strings.TrimSpace(n.Annotations[sim.NoDeleteAnno]) == "" {
+				st += ":whitespace-value"
 			}
 			r.Covered(P, "protected-tainted:"+st)
 		}
